@@ -821,6 +821,10 @@ def explain_description(
                     if not check_all_conditions(parsed, amount, txn_date):
                         continue
 
+            # Tag-only rules (no category) never decide the classification
+            if not category:
+                continue
+
             result['matched_rule'] = {
                 'pattern': pattern,
                 'source': source,
